@@ -47,6 +47,11 @@ def Opaque(name, null=False):
     return ("opq", name, bool(null))
 
 
+def StrEnum(name, *values):
+    """a string field whose value is always one of finitely many constants (term: Int code = position in values)"""
+    return ("senum", name, tuple(values))
+
+
 def Tuple(*sorts):
     return ("tuple", tuple(sorts))
 
@@ -61,7 +66,7 @@ def is_list(s):
 
 def is_intlike(s):
     """sorts whose z3 term is an Int"""
-    return s[0] in ("int", "ref", "list", "enum", "opq")
+    return s[0] in ("int", "ref", "list", "enum", "opq", "senum")
 
 
 def nullable(s):
@@ -82,6 +87,6 @@ def show(s):
         return f"opt[{show(s[1])}]"
     if s[0] == "tuple":
         return "(" + ",".join(show(x) for x in s[1]) + ")"
-    if s[0] == "enum":
+    if s[0] in ("enum", "senum"):
         return f"enum:{s[1]}"
     return s[0]
